@@ -96,7 +96,9 @@ class Check(PropertyCheck):
     design_ref = "§5 C02"
     level_text = ("Lean theorems about the model of Http1Connection's read side (state = phase x unparsed buffer): head extraction "
                   "with h11 maybe_extract_lines and the blank-line loop of the fixed read_headers, framing decision as a parameter "
-                  "(instantiated for requests — requestSize — and for the client side — responseSize, incl. swallowing interim 1xx), "
+                  "(instantiated for requests — requestSize —, for the client side — responseSize, incl. swallowing interim 1xx — and for "
+                  "the parent proxy's CONNECT reply read by HttpUpstreamProxy.receive_handshake_data — handshakeSize, "
+                  "handshake_seg_independent), "
                   "ContentLengthReader and Http10Reader body phases, the four sub-states of the h11 ChunkedReader (size line with "
                   "extensions and trailing OWS per the chunk_header regex, chunk data, the CR LF after the data, last-chunk and trailer "
                   "section — a non-empty trailer section is the protocol error of fix 4f0e88849), wait until the flow is done, release = "
@@ -118,7 +120,10 @@ class Check(PropertyCheck):
                   "Out of scope by design: tunnel payload after CONNECT, request streaming (head forwarded before the body is judged), "
                   "an origin that drops a keep-alive connection without announcing it (races with the next request).")
     technique = "Lean 4 proof (feed_append for the drain loop + generic seg_independent) + schedule-vs-whole oracle on the real layer"
-    rule = ("every split point (client side and server side) and the all-one-byte schedule of three fixed exchanges (leading CRLF, "
+    rule = ("all three inbound HTTP/1 byte streams are segmented: client requests, origin responses, and the parent proxy's reply to "
+            "CONNECT (per-flow server_conn.via: 200/204/299/407/502/403, with body, extra or folded headers, bare LF, leading CRLF, "
+            "non-HTTP greetings; every split point incl. inside 'HTTP/' and byte by byte for four fixed replies, random cuts otherwise); "
+            "every split point (client side and server side) and the all-one-byte schedule of three fixed exchanges (leading CRLF, "
             "chunked + pipelining, bare-LF head + read-until-close), then generated exchanges of C01's grammar x schedules: one cut, "
             "k random cuts, all-one-byte; x random client/server interleavings. distinct = distinct (exchange, schedule); "
             "non-trivial = at least one segment boundary.")
@@ -129,7 +134,8 @@ class Check(PropertyCheck):
                     "mitmproxy.proxy.layers.http._http1:Http1Connection.make_pipe",
                     "mitmproxy.proxy.layers.http._http1:Http1Server.read_headers", "mitmproxy.proxy.layers.http._http1:Http1Server.mark_done",
                     "mitmproxy.proxy.layers.http._http1:Http1Client.read_headers", "mitmproxy.proxy.layers.http._http1:make_body_reader",
-                    "mitmproxy.proxy.utils:ReceiveBuffer"]
+                    "mitmproxy.proxy.utils:ReceiveBuffer",
+                    "mitmproxy.proxy.layers.http._upstream_proxy:HttpUpstreamProxy.receive_handshake_data"]
     trusted_base = ["h11 ReceiveBuffer / ContentLengthReader / Http10Reader / ChunkedReader as transcribed in Model/C02.lean",
                     "harness/common/world.py as the stand-in for proxy/server.py (validated separately against the asyncio server)",
                     "harness/common/refparsers.py for comparing what the peers receive semantically"]
@@ -160,7 +166,31 @@ class Check(PropertyCheck):
                     yield c
                 c = dict(base); c["ccuts"] = list(range(1, len(creq))); c["scuts"] = [list(range(1, len(resp)))] * 2; c["sched"] = []
                 yield c
+        # the parent proxy's CONNECT reply: every split point (incl. inside "HTTP/") and byte by byte
+        G = b"GET http://origin.example/a HTTP/1.1\r\nHost: origin.example\r\n\r\n"
+        for reply in (X.PROXY_REPLIES[0], X.PROXY_REPLIES[3], X.PROXY_REPLIES[5], X.PROXY_REPLIES[9]):
+            base = {"mode": "regular", "via": True, "client_hex": hx(G), "edits": [], "ccuts": [], "scuts": [[]], "sched": [],
+                    "resps": [{"data_hex": hx(b"HTTP/1.1 200 OK\r\nContent-Length: 2\r\n\r\nhi"), "close": False}]}
+            for i in list(range(1, len(reply))) + [None]:
+                c = dict(base)
+                c["proxy_replies"] = [{"data_hex": hx(reply), "cuts": [i] if i else list(range(1, len(reply))), "close": False}]
+                yield c
         while True:
+            if rng.chance(0.1):
+                # unsolicited bytes behind a complete response, in the same segment vs. in a segment of their own, both
+                # before the next request is sent
+                c = X.gen_surplus_exchange(rng, split=True); c["keep_surplus"] = True
+                if rng.chance(0.5):
+                    k = next(i for i, x in enumerate(c["scuts"]) if x)
+                    n = len(unhx(c["resps"][k]["data_hex"]))
+                    c["scuts"][k] = sorted(set(c["scuts"][k] + [rng.randrange(1, n) for _ in range(rng.randint(1, 3))]))
+                yield c
+                continue
+            if rng.chance(0.15):
+                base = X.gen_via_exchange(rng)
+                for _ in range(2):
+                    yield X.gen_schedule(rng, base)
+                continue
             base = X.gen_exchange(rng)
             # a streamed request head is forwarded before its body has been judged: how much of a request that fails
             # later reaches the origin depends on when the failure is noticed — by design, not C02's subject
@@ -179,7 +209,8 @@ class Check(PropertyCheck):
         whole = X.run(case, whole=True)
         seg = X.run(case)
         (sw, cw), (ss, cs) = semantic(whole), semantic(seg)
-        return {"whole": sw, "seg": ss, "crash": cw + cs, "nseg": len(case.get("ccuts") or []) + sum(len(x) for x in case.get("scuts") or [])}
+        nseg = len(case.get("ccuts") or []) + sum(len(x) for x in case.get("scuts") or []) + sum(len(pr.get("cuts") or []) for pr in case.get("proxy_replies") or [])
+        return {"whole": sw, "seg": ss, "crash": cw + cs, "nseg": nseg}
 
     def oracle(self, case, obs):
         # C02: "every way of splitting those streams into received segments yields the same flows (same requests,
@@ -272,12 +303,13 @@ class Check(PropertyCheck):
 
     def classify(self, case, obs):
         if not obs["nseg"]: return None
-        return json.dumps([case["mode"], case["client_hex"], case.get("ccuts"), case.get("scuts"), case.get("sched")])
+        return json.dumps([case["mode"], case["client_hex"], case.get("ccuts"), case.get("scuts"), case.get("sched"), case.get("proxy_replies")])
 
     def branches(self, case, obs):
         out = ["mode:" + case["mode"], "flows:%d" % len(obs["seg"]["flows"])]
         out.append("segments:" + ("0" if obs["nseg"] == 0 else "1-3" if obs["nseg"] <= 3 else "4-20" if obs["nseg"] <= 20 else ">20"))
         if case.get("sched"): out.append("interleaved")
+        if case.get("via"): out.append("via-parent-proxy")
         if obs["seg"]["errs"]: out.append("errpage")
         if obs["crash"]: out.append("crash")
         return out
